@@ -827,6 +827,8 @@ private:
 	
 	///Read from a file
 	bool read_fits_core(fitsfile*, const std::string& filePath="");
+	///Release the partial state left by a failed read
+	void release_partial();
 	
 	///Write to a file
 	void write_fits_core(fitsfile*) const;
